@@ -179,3 +179,41 @@ func VH_C16_http_post() {
 	x := vnondetStringN(3)
 	vhCutEverywhere(vhCat("POST / HTTP/1.1\r\nContent-Length: ", d, "\r\n\r\n", x))
 }
+
+// vhSplitCheck3 cuts the stream twice (three reads on one connection).
+func vhSplitCheck3(stream []byte, k1, k2 int) {
+	vobs("stream3", string(stream), k1, k2)
+	whole := new(Client)
+	mA, eA := vhFeed(whole, append([]byte(nil), stream...))
+	cut := new(Client)
+	var all []*Message
+	var err error
+	bounds := [4]int{0, k1, k2, len(stream)}
+	for p := 0; p < 3; p++ {
+		var m []*Message
+		m, err = vhFeed(cut, append([]byte(nil), stream[bounds[p]:bounds[p+1]]...))
+		all = append(all, m...)
+		if err != nil || vhEndsClosed(all) {
+			break
+		}
+	}
+	vreach("three-parts-read")
+	vassert("C16.K1.split3_same_messages", vhSameMsgs(mA, all))
+	if !vhEndsClosed(all) {
+		vassert("C16.K1.split3_same_error", vhErrText(eA) == vhErrText(err))
+	}
+}
+
+// VH_C16_three_reads: three pipelined commands (RESP, RESP, telnet) cut at every pair of offsets,
+// so that a read can end inside a command, the next exactly on a command boundary, and more follows.
+//verif:cfg b_template=*1\r\n$1\r\nA\r\n*2\r\n$1\r\nB\r\n$1\r\nC\r\nDD\r\n b_symbolic_bytes=5 b_cuts=every_pair_of_offsets
+func VH_C16_three_reads() {
+	a := vnondetStringN(1)
+	b := vnondetStringN(1)
+	c := vnondetStringN(1)
+	d := vnondetStringN(2)
+	stream := vhCat("*1\r\n$1\r\n", a, "\r\n*2\r\n$1\r\n", b, "\r\n$1\r\n", c, "\r\n", d, "\r\n")
+	k1 := 1 + vchoose(len(stream)-2)
+	k2 := k1 + 1 + vchoose(len(stream)-k1-1)
+	vhSplitCheck3(stream, k1, k2)
+}
